@@ -22,6 +22,8 @@ KNOWN_ROOT_FAILS = {
     "embedding_slab::tests::test_no_resize_stall",   # timing test, fails only under heavy load
     "entity_index::tests::test_no_resize_stall",
     "partition_merge::tests::test_pending_tx_is_timed_out",   # asserts that no millisecond boundary passes between two statements
+    "distributed_tx::tests::test_participant_recover_exact_timeout_not_expired",   # listed as flaky in BASELINE.json
+    "distributed_tx::tests::test_key_lock_is_expired_exact_boundary",   # listed as flaky in BASELINE.json
 }
 
 
